@@ -100,11 +100,11 @@ def testCode : Option Rv → List Instr
   | none => [.moveq (.bool true) result]
   | some c => genRv c (.to result)
 
-def CondOK : Option Rv → Prop
+def CondOK (V : String → Prop) : Option Rv → Prop
   | none => True
-  | some c => RvOK c
+  | some c => RvC V c
 
-theorem semTest_error {c : Option Rv} (hc : CondOK c) (f : Nat) (σ : S) (o : Outcome)
+theorem semTest_error {c : Option Rv} (f : Nat) (σ : S) (o : Outcome)
     (h : semTest f c σ = .error o) : o ≠ .normal ∧ o ≠ .brk ∧ o ≠ .ret := by
   cases c with
   | none => simp [semTest] at h
@@ -114,19 +114,19 @@ theorem semTest_error {c : Option Rv} (hc : CondOK c) (f : Nat) (σ : S) (o : Ou
     · simp at h
     · rename_i o' he
       simp at h; subst h
-      exact evalRv_error hc f σ _ he
+      exact evalRvC_error he
 
 /-- the test of a `while` loop: the truth of the condition goes to `result` -/
-theorem exec_test {stk : Stk} {σ : S} {s : State} {pc : Nat} (c : Option Rv) (hcnd : CondOK c)
+theorem exec_test {stk : Stk} {σ : S} {s : State} {pc : Nat} {f : Nat} (ihRv : RvToGoal V img K f)
+    (c : Option Rv) (hcnd : CondOK V c)
     (h : Sim K stk σ s) (hpc : s.pc = (pc : Int)) (hc : CodeAt img pc (testCode c))
-    {f : Nat} {b : Bool} {σ' : S} (hev : semTest f c σ = .ok (b, σ')) :
-    σ' = σ ∧ Exec img s (fun t => At K (pc + (testCode c).length) stk [] σ t ∧
+    {b : Bool} {σ' : S} (hev : semTest f c σ = .ok (b, σ')) :
+    Exec img s (fun t => At K (pc + (testCode c).length) stk [] σ' t ∧
       (t.regs .result).truthy = b) := by
   cases c with
   | none =>
     simp only [semTest, Except.ok.injEq, Prod.mk.injEq] at hev
     obtain ⟨rfl, rfl⟩ := hev
-    refine ⟨rfl, ?_⟩
     simp only [testCode] at hc ⊢
     apply Exec.step h.running
     apply Exec.done
@@ -141,13 +141,12 @@ theorem exec_test {stk : Stk} {σ : S} {s : State} {pc : Nat} (c : Option Rv) (h
     · rename_i v s' he
       simp only [Except.ok.injEq, Prod.mk.injEq] at hev
       obtain ⟨rfl, rfl⟩ := hev
-      obtain ⟨rfl, hex⟩ := exec_toResult rv hcnd h hpc hc he
-      exact ⟨rfl, hex.mono fun t ⟨ht, hres⟩ => ⟨ht, by rw [hres]⟩⟩
+      exact (rv_toResult ihRv rv hcnd h hpc hc he).mono fun t ⟨ht, hres⟩ => ⟨ht, by rw [hres]⟩
     · simp at hev
 
 /-- `repeat while c` / `repeat`: from the test on, with the loop frame in place -/
 def WhileIter (V : String → Prop) (img : Image) (K : Ctx) (f : Nat) : Prop :=
-  ∀ (c : Option Rv) (body : Block), CondOK c → FragBlock V body →
+  ∀ (c : Option Rv) (body : Block), CondOK V c → FragBlock V body →
   ∀ (σ σ' : S) (o : Outcome) (s : State) (top : Nat) (stk : Stk)
     (vars : List (LoopVar × Val)) (extra : List Val) (off : Int),
     Sim K (stk.inner vars extra) σ s → s.pc = (top : Int) →
@@ -165,7 +164,8 @@ theorem while_zero : WhileIter V img K 0 := by
   simp only [execWhile, Prod.mk.injEq] at h
   rcases ho with rfl | rfl <;> simp at h
 
-theorem while_step (f : Nat) (ihB : BlockGoal V img K f) (ihW : WhileIter V img K f) : WhileIter V img K (f + 1) := by
+theorem while_step (f : Nat) (ihRv : RvToGoal V img K f) (ihB : BlockGoal V img K f)
+    (ihW : WhileIter V img K f) : WhileIter V img K (f + 1) := by
   intro c body hcnd hb σ σ' o s top stk vars extra off sim hpc hc hoff h ho
   rw [execWhile_succ] at h
   have hct := hc.left.left.left.left
@@ -178,18 +178,18 @@ theorem while_step (f : Nat) (ihB : BlockGoal V img K f) (ihW : WhileIter V img 
   · rename_i o' he
     simp only [Prod.mk.injEq] at h
     obtain ⟨rfl, rfl⟩ := h
-    have := semTest_error hcnd f σ _ he
+    have := semTest_error f σ _ he
     rcases ho with rfl | rfl <;> simp at this
   · rename_i s1 he
     simp only [Prod.mk.injEq] at h
     obtain ⟨rfl, rfl⟩ := h
-    obtain ⟨rfl, hex⟩ := exec_test c hcnd sim hpc hct he
+    have hex := exec_test ihRv c hcnd sim hpc hct he
     refine ⟨rfl, hex.trans fun t ⟨ht0, hres⟩ => ?_⟩
     refine (exec_jump .ifFalse _ (top + (testCode c).length + 1 + (genBlock body).length + 1)
       (by simp) ht0.2 ht0.1 hcj (by simp [hres]; omega)).trans fun t1 ht1 => ?_
     exact exec_endLoop vars extra ht1.2 ht1.1 (idx hce)
   · rename_i s1 he
-    obtain ⟨rfl, hex⟩ := exec_test c hcnd sim hpc hct he
+    have hex := exec_test ihRv c hcnd sim hpc hct he
     have hjmp : ∀ t0, (At K (top + (testCode c).length) (stk.inner vars extra) [] s1 t0 ∧
         (t0.regs .result).truthy = true) →
         Exec img t0 (At K (top + (testCode c).length + 1) (stk.inner vars extra) [] s1) := by
@@ -477,7 +477,7 @@ theorem loop_zero : LoopGoal V img K 0 := by
   rcases ho with rfl | rfl <;> simp at h
 
 /-- `repeat while c` and `repeat`: frame, iterations, frame dropped -/
-theorem loop_while (f : Nat) (ihW : WhileIter V img K f) (c : Option Rv) (hcnd : CondOK c) (body : Block)
+theorem loop_while (f : Nat) (ihW : WhileIter V img K f) (c : Option Rv) (hcnd : CondOK V c) (body : Block)
     (hb : FragBlock V body) (σ σ' : S) (o : Outcome) (s : State) (pc exit : Nat) (stk : Stk)
     (sim : Sim K stk σ s) (hpc : s.pc = (pc : Int))
     (hc : CodeAt img pc (resolve (assembleLoop [] (testCode c) [] (genBlock body) []) pc exit))
@@ -587,7 +587,8 @@ theorem loop_counted (f : Nat) (ihC : CountIter V img K f) (pre : List Instr) (l
 theorem passes_replicate (k : Nat) : (List.replicate k "").length = k := List.length_replicate
 
 /-- `repeat n` -/
-theorem loop_count (f : Nat) (ihC : CountIter V img K f) (n : Rv) (hn : RvOK n) (body : Block)
+theorem loop_count (f : Nat) (ihRv : RvToGoal V img K f) (ihC : CountIter V img K f) (n : Rv) (hn : RvC V n)
+    (body : Block)
     (hb : FragBlock V body) (σ σ' : S) (o : Outcome) (s : State) (pc exit : Nat) (stk : Stk)
     (sim : Sim K stk σ s) (hpc : s.pc = (pc : Int))
     (hc : CodeAt img pc (resolve (genLoop (.count n) (genBlock body)) pc exit))
@@ -600,7 +601,7 @@ theorem loop_count (f : Nat) (ihC : CountIter V img K f) (n : Rv) (hn : RvOK n) 
   · rename_i o' he
     simp only [Prod.mk.injEq] at h
     obtain ⟨rfl, rfl⟩ := h
-    exact (error_excluded hn he ho).elim
+    exact (errorC_excluded he ho).elim
   · rename_i x σ1 he
     split at h
     · rename_i q hq
@@ -608,7 +609,7 @@ theorem loop_count (f : Nat) (ihC : CountIter V img K f) (n : Rv) (hn : RvOK n) 
       rw [passCount_eq, ← bindsOf_none] at h
       refine loop_counted f ihC _ none none body hb _ σ σ1 σ' o s pc exit stk sim hpc hc ?_ h ho
       intro hcpre t ht
-      obtain ⟨rfl, hcnt⟩ := exec_toCounter n hn [] _ ht.2 ht.1 hcpre he
+      have hcnt := rv_toLoopVar ihRv n hn .counter [] _ ht.2 ht.1 hcpre he
       exact hcnt.mono fun t' ht' => ⟨_, x, q, fl, ht', getVar_putVar [] .counter x, hnum, by simp,
         (passes_replicate _).symm⟩
     · simp only [Prod.mk.injEq] at h
@@ -806,7 +807,7 @@ theorem loop_names (g : Nat) (ihC : CountIter V img K g) (disc : List Instr) (lv
         subst hp'
         exact hi2
 
-theorem loop_step (f : Nat) (ihW : WhileIter V img K f) (ihC : CountIter V img K f)
+theorem loop_step (f : Nat) (ihRv : RvToGoal V img K f) (ihW : WhileIter V img K f) (ihC : CountIter V img K f)
     (ihC1 : ∀ g, g + 1 = f → CountIter V img K g) : LoopGoal V img K (f + 1) := by
   intro hd body hhd hb σ σ' o s pc exit stk sim hpc hc h ho
   cases hd with
@@ -816,7 +817,7 @@ theorem loop_step (f : Nat) (ihW : WhileIter V img K f) (ihC : CountIter V img K
   | while_ c =>
     exact loop_while f ihW (some c) hhd body hb σ σ' o s pc exit stk sim hpc hc
       (by simpa only [execLoop] using h) ho
-  | count n => exact loop_count f ihC n hhd body hb σ σ' o s pc exit stk sim hpc hc h ho
+  | count n => exact loop_count f ihRv ihC n hhd body hb σ σ' o s pc exit stk sim hpc hc h ho
   | range v a b => exact loop_range f ihC v a b hhd.1 hhd.2 body hb σ σ' o s pc exit stk sim hpc hc h ho
   | interp n v a b =>
     exact loop_with f ihC n hhd.1 (.fromTo v a b) hhd.2 body hb σ σ' o s pc exit stk sim hpc hc
